@@ -133,6 +133,8 @@ func (cs *checkState) run() int {
 		mu         sync.Mutex
 		viols      []violation
 		troubles   []string
+		deathsOutside     int
+		deathsOutsideNote string
 		stallNotes []string
 		stallsBy   = map[string]int{}
 		spinStalls int
@@ -159,6 +161,15 @@ func (cs *checkState) run() int {
 				}
 				for _, d := range r.deaths {
 					agg.addDeath(t.spec.Flavour)
+					if outsideClause(cs.prop, d) {
+						// C11 says "does not crash the process for trivially low targets"; whether Mine returns at all
+						// for other targets is C13's clause, and C13's runs include them
+						deathsOutside++
+						if deathsOutsideNote == "" {
+							deathsOutsideNote = fmt.Sprintf("run %d (seed %d, %s, target %q): %s", d.Begin.Run, d.Begin.Seed, t.spec.Flavour, d.RunNote, d.Class)
+						}
+						continue
+					}
 					viols = append(viols, violation{OneCPU: t.spec.OneCPU, ChunkFrom: t.spec.From, Flavour: t.spec.Flavour, Run: d.Begin.Run, Seed: d.Begin.Seed, Class: d.Class, Message: d.Note, IsDeath: true})
 				}
 				for _, st := range r.stalls {
@@ -278,6 +289,9 @@ func (cs *checkState) run() int {
 			troubles = append(troubles, failed[c])
 		}
 	}
+	if deathsOutside > 0 {
+		fmt.Printf("verif: note: %d run(s) ended with the death of the process for a target that is not trivially low, which no clause of %s covers (C13 decides whether Mine returns), e.g. %s\n", deathsOutside, cs.prop, deathsOutsideNote)
+	}
 	if agg.stalls > 0 {
 		fmt.Printf("verif: %d run(s) stalled and were counted as inconclusive (outside the auto-instrumented flavour the cooperative scheduler cannot resolve a spin-wait or a sync.Mutex held by a parked actor), e.g. %s\n", agg.stalls, strings.Join(stallNotes, "; "))
 		// stalls are trouble when nothing else covers the code: spin-waits anywhere, any stall in the auto
@@ -316,6 +330,14 @@ func (cs *checkState) run() int {
 		}
 	}
 	return exit
+}
+
+// outsideClause: a process death that the property of the check says nothing about. C11's only clause about crashes is
+// "Mine does not crash the process for trivially low targets"; a panic of Mine in a C11 run with another kind of target
+// (known from the run's NOTE line) is left to C13 ("Mine returns either a nonce or the cancellation error"), whose
+// generator draws boundary targets as well.
+func outsideClause(prop string, d death) bool {
+	return prop == "C11" && strings.HasPrefix(d.Class, "panic:") && d.RunNote != "" && !strings.HasPrefix(d.RunNote, "low") && !strings.HasPrefix(d.RunNote, "crowd")
 }
 
 func childTimeout(tier string) time.Duration {
